@@ -5,7 +5,7 @@ CONSTANTS
   MaxFiles = 2
   Lens = {0, 1, 253, 254, 255, 256, 509, 510, 511}
   Types = {"D", "B"}
-  Names = {"X"}
+  Names = {"X", "Y"}
   Splits = {1, 254}
 VIEW View
 INVARIANT RoundTripInv
